@@ -65,7 +65,7 @@ def _worker(task, conn):
 
 
 def run_tasks(tasks, procs):
-  """One forked process per task, at most `procs` at a time, each with a HARD wall limit (task_s + 25%): a worker stuck
+  """One forked process per task, at most `procs` at a time, each with a HARD wall limit (4 x task_s + 2 min; task_s itself is a CPU-time budget): a worker stuck
   inside a native solver / normalisation call cannot be interrupted from Python, so it is killed and the task is
   reported inconclusive."""
   import multiprocessing.connection as mpc
@@ -86,7 +86,7 @@ def run_tasks(tasks, procs):
       r, w = ctxm.Pipe(duplex=False)
       p = ctxm.Process(target=_worker, args=(task, w), daemon=True)
       p.start(); w.close()
-      limit = task[3].get("task_s", 300) * 1.25 + 30
+      limit = task[3].get("task_s", 300) * 4 + 120          # wall; the task itself budgets CPU time
       running[r] = (p, task, time.time() + limit, limit)
     ready = mpc.wait(list(running), timeout=0.5)
     for r in ready:
